@@ -434,7 +434,19 @@ impl Env for SimEnv {
         let mut g = self.lock();
         let a = g.world.resolve(from);
         let b = g.world.resolve(to);
-        let res = if g.world.nodes.contains_key(&a) && g.world.is_dir(&parent_of(&b)) {
+        // the cases in which rename(2) refuses: file onto directory, directory onto file,
+        // directory onto non-empty directory
+        let a_is_dir = g.world.is_dir(&a);
+        let b_is_dir = g.world.is_dir(&b);
+        let b_is_file = g.world.is_file(&b);
+        let b_nonempty = b_is_dir && !g.world.children(&b).is_empty();
+        let refused = (!a_is_dir && b_is_dir) || (a_is_dir && b_is_file) || (a_is_dir && b_nonempty);
+        let res = if refused {
+            Err(io::Error::new(
+                io::ErrorKind::Other,
+                "rename refused: incompatible source and target kinds (simulated)",
+            ))
+        } else if g.world.nodes.contains_key(&a) && g.world.is_dir(&parent_of(&b)) {
             let prefix = format!("{}/", a);
             let moved: Vec<(String, Node)> = g
                 .world
